@@ -25,7 +25,8 @@ GEN = ['IoShapes']
 RULE = ('each case = an archive of 1..7 members; kinds file/dir/symlink/hardlink/fifo; names from {plain, nested, ./x, a/../b, '
         '../x, ../../x, /abs, ../<install dir name>/x, ../<missing>/../<install dir name>/x (the member lands inside, its parent '
         'directories would not), through a previously created link}; link targets from {sibling, sub/dir, '
-        '.., ../.., /abs, chain via another link}; 40% benign archives; gz or not. distinct non-trivial = distinct archives with at '
+        '.., ../.., /abs, chain via another link}; a third of the hostile archives aim at the copy fallbacks of links (hard links naming '
+        'earlier members under several spellings, re-used names, links onto directories, names ending in / or /.); 40% benign archives; gz or not. distinct non-trivial = distinct archives with at '
         'least one hostile name or link')
 ASSUMPTIONS = [
     'tarfile\'s data filter (CPython 3.12), os.path.realpath, os.makedirs and the kernel\'s path walk (open / mkdir / symlink / '
@@ -33,8 +34,15 @@ ASSUMPTIONS = [
     'ever created or replaced outside the install directory, for any archive and any tree with links; the correspondence ties '
     'the model to the real extraction (same tree, same error family) and the oracle snapshots the real world outside',
     'the world outside the install directory: its ancestors are plain directories, nothing else exists there as far as the '
-    'model is concerned (an entry created there IS the verdict `escaped`); hard-link fallbacks of tarfile (copy from the '
-    'archive when os.link cannot be used) are `unmodelled` and judged by the oracle only',
+    'model is concerned (an entry created there IS the verdict `escaped`)',
+    'the copy fallbacks of TarFile.makelink are modelled (`chain`): a hard link that os.link cannot make (target absent, a '
+    'directory, something in its place) and a symbolic link that cannot be made (a directory in its place) extract the member '
+    'their target names — searched before the link, resp. in the whole archive, by normalised name — at the link\'s place, '
+    'recursively; names made by os.link share one inode, the model keeps copies (file contents are not compared for archives '
+    'with hard links); chains longer than the archive are RecursionError in the model, longer than ~300 in CPython',
+    'cycles of symbolic links: the model\'s realpath gives up (ELOOP, extraction stops) where os.path.realpath returns the '
+    'unresolved path and the extraction continues until the kernel refuses the cycle: such archives are outside the model '
+    'beyond that member (oracle only)',
     'everything above the install directory is a plain directory without symbolic links (true of the sandbox)',
     'permissions: only owner read/write of extracted regular files is checked (set_attrs=False leaves the rest to the umask)',
 ]
@@ -42,7 +50,8 @@ TRUSTED = ['tarfile', 'os.path.realpath']
 PARTIAL = ('containment is proved for ALL archives and trees, links included (untar_never_escapes); that benign members are '
            'extracted with their content is proved for archives of regular files with plain names of any depth, none below another '
            '(benign_archive_extracted, benign_member_extracted); directory members, repeated names and permissions are checked '
-           'by the oracle only; the hard-link copy fallback of tarfile is outside the model')
+           'by the oracle only; the copy fallbacks of links are inside the model (untar_never_unmodelled); archives that plant a CYCLE '
+           'of symbolic links and then name a member through it are followed by the model only up to that member')
 _cache = {}
 
 
@@ -93,14 +102,68 @@ def gen_members(rng, benign):
     return ms
 
 
+def gen_linky(rng):
+    """ archives that reach the COPY FALLBACKS of TarFile.makelink: hard links naming earlier members (under several spellings
+    of the same normalised name), members that are not on disk any more, directories, other links, themselves; names re-used so
+    that os.link finds something in its place; symbolic links onto directories; names ending in '/' or '/.' """
+    ms = []
+    names = ['f0', 'f1', 'd0/f0', 'd0', 'd0/e', 'L0', 'd0/L1', 'h0', 'h1', 'd0/h2', 'x', 'd0/e/L2', 'a/.', 'd/', 'd0/e/']
+    for i in range(rng.randint(2, 7)):
+        kind = rng.choice(['file', 'file', 'dir', 'sym', 'hard', 'hard', 'hard'])
+        name = rng.choice(names)
+        link = ''
+        if kind == 'sym':
+            link = rng.choice(['f0', 'f1', 'd0', '../f0', '../..', '../../x', 'zz', 'd0/f0', '.', 'e', 'L0', '../L0', 'h0'])
+        if kind == 'hard':
+            prev = [m['name'] for m in ms] or ['f0']
+            link = rng.choice(prev + prev + ['f0', 'd0', 'nothere', 'd0/./f0', './f0', 'd0//f0', 'zz/../f0', 'd0/../f0', 'L0', 'd0/L1',
+                                             'd0/e/L2', 'd0/e', 'f0/', 'f0/.', 'd0/', '.', ''])
+        ms.append({'kind': kind, 'name': name, 'linkname': link, 'content': i + 1})
+    return ms
+
+
 def gen_case(rng):
     benign = rng.random() < 0.4
+    if not benign and rng.random() < 0.35:
+        return {'members': gen_linky(rng), 'benign': False, 'gz': rng.random() < 0.5, 'ro_decoys': rng.random() < 0.5, 'linky': True}
     return {'members': gen_members(rng, benign), 'benign': benign, 'gz': rng.random() < 0.5, 'ro_decoys': rng.random() < 0.5}
+
+
+def _M(kind, name, link='', c=1):
+    return {'kind': kind, 'name': name, 'linkname': link, 'content': c}
+
+
+# the copy fallbacks of TarFile.makelink, one archive per branch of Model/C18.lean `placeFinal` / `chain`
+FALLBACK_CASES = [
+    [_M('file', 'f0', c=1), _M('hard', 'h', 'f0', 2)],                                   # os.link
+    [_M('sym', 'L', 'f0', 1), _M('hard', 'h', 'L', 2)],                                   # target absent: copy of the link found before
+    [_M('file', 'f0', c=1), _M('sym', 'L', 'f0', 2), _M('hard', 'h', 'L', 3)],             # os.link does not follow: a second link
+    [_M('sym', 'd0/e/L', '../../x', 1), _M('hard', 'h', 'd0/e/L', 2), _M('file', 'h', c=3)],   # the copied link points outside: refused later
+    [_M('sym', 'd0/e/L', '../..', 1), _M('hard', 'h', 'd0/e/L', 2), _M('file', 'h/pwn', c=3)],
+    [_M('dir', 'd0'), _M('hard', 'h', 'd0', 2)],                                          # EPERM: copy of the directory member
+    [_M('file', 'd0/f', c=1), _M('hard', 'h', 'd0', 2), _M('file', 'g', c=3)],              # no member named d0: skipped
+    [_M('file', 'f0', c=1), _M('file', 'h', c=2), _M('hard', 'h', 'f0', 3)],                # EEXIST: extracted over
+    [_M('file', 'f0', c=1), _M('sym', 'h', 'newfile', 2), _M('hard', 'h', 'f0', 3)],        # ... through a dangling link
+    [_M('hard', 'h', 'nothere', 1), _M('file', 'g', c=2)],                                 # KeyError
+    [_M('file', 'd0/f', c=1), _M('hard', 'h', 'd0', 2), _M('hard', 'h2', 'h', 3), _M('file', 'g', c=4)],   # a hard link found: its own search
+    [_M('file', 'd0/f0', c=1), _M('hard', 'h', 'd0/./f0', 2), _M('hard', 'h3', './d0//f0', 3)],
+    [_M('file', 'f0', c=1), _M('dir', 'x'), _M('hard', 'x', 'f0', 3)],                      # onto a directory
+    [_M('file', 'f0', c=1), _M('file', 'f0', c=2), _M('sym', 'f0', 'zz', 3), _M('hard', 'h', 'f0', 4)],    # the LATEST member of that name
+    [_M('file', 'f0', c=1), _M('hard', 'd/', 'f0', 2)], [_M('file', 'f0'), _M('hard', 'a/.', 'f0')],
+    [_M('file', 'd/', c=1)], [_M('file', 'a/.', c=1)], [_M('file', 'a/b//', c=1)], [_M('dir', 'a/b/')], [_M('sym', 'a/b/', 'f0')],
+    [_M('sym', 'x', 'd0', 1), _M('sym', 'a/.', '../L0', 2)],                               # a link onto a directory: skipped
+    [_M('file', 'd0/e', c=1), _M('sym', 'd0', 'd0', 2)],                                   # ... whose target names itself: RecursionError
+    [_M('file', 'd0/e', c=1), _M('dir', 'k'), _M('sym', 'd0', 'k', 3), _M('file', 'g', c=4)],  # ... whose target is a directory member: nothing
+    [_M('file', 'd0/e', c=1), _M('sym', 'd0', 'late', 2), _M('file', 'late', c=3)],          # ... found LATER in the archive: a file onto a directory
+    [_M('file', 'd0', c=1), _M('hard', 'd0/h2', 'd0/e', 2)], [_M('file', 'd0', c=1), _M('file', 'f'), _M('hard', 'd0/h2', 'f', 3)],
+    [_M('file', 'f0', c=1), _M('hard', 'h', 'f0', 2), _M('file', 'f0', c=5)],               # one inode, two names
+]
 
 
 def cases(rng, tier):
     n = 300 if tier == 'quick' else 6000
     out = [gen_case(rng) for _ in range(n)]
+    out += [{'members': ms, 'benign': False, 'gz': False, 'linky': True} for ms in FALLBACK_CASES]
     # the chain from the design notes: d -> x/y/z, l -> d/../../.., x -> ., then l/pwn
     out.append({'members': [{'kind': 'sym', 'name': 'd', 'linkname': 'x/y/z', 'content': 1},
                             {'kind': 'sym', 'name': 'l', 'linkname': 'd/../../..', 'content': 2},
@@ -287,18 +350,29 @@ def compare(case, io_, mo):
     me = mo['error']
     ie = io_['error']
     if me == 'unmodelled':
-        return None     # hard-link fallbacks of tarfile outside the model; the oracle still applies
+        return 'model: `unmodelled`, which Props/C18.lean untar_never_unmodelled proves unreachable'
+    if me == 'ELOOP' and ie != 'os:OSError':
+        # a cycle of symbolic links: the model's realpath gives up (extraction stops), os.path.realpath returns the unresolved path
+        # and the extraction goes on until the kernel refuses the cycle; outside the model (see PARTIAL), the oracle still applies
+        return None
     if me == 'escaped':
         # Props/C18.lean proves this verdict unreachable for the modelled code: reaching it means the code under test
         # creates an entry outside the install directory according to the model (the oracle looks at the real tree)
         return f'model: an entry would be created outside the install directory (impl: {ie})'
-    fam_m = None if me is None else ('filter' if me in FILTER_ERRORS else ('other' if me == 'KeyError' else 'os'))
+    fam_m = None if me is None else ('filter' if me in FILTER_ERRORS else ('other' if me in ('KeyError', 'RecursionError') else 'os'))
     fam_i = None if ie is None else ie.split(':')[0]
     if fam_m != fam_i:
         return f'error: impl {ie} model {me}'
     if me in FILTER_ERRORS and ie != 'filter:' + me:
         return f'filter error class: impl {ie} model {me}'
-    if io_['tree'] != mo['tree']:
+    it, mt = io_['tree'], mo['tree']
+    if any(m['kind'] == 'hard' for m in case['members']):
+        # names made by os.link share ONE inode: a later member written through one of them changes what all of them hold; the
+        # model keeps a copy per name, so the CONTENT of regular files is not compared for archives with a hard link (kinds,
+        # places and link targets are)
+        it = [[e[0], e[1], None if e[1] == 'file' else e[2]] for e in it]
+        mt = [[e[0], e[1], None if e[1] == 'file' else e[2]] for e in mt]
+    if it != mt:
         a = [t for t in io_['tree'] if t not in mo['tree']]
         b = [t for t in mo['tree'] if t not in io_['tree']]
         return f'tree: impl-only {a[:4]} model-only {b[:4]}'
@@ -347,6 +421,8 @@ def distribution(cases_):
     d = {}
     for c in cases_:
         d['benign' if c['benign'] else 'hostile'] = d.get('benign' if c['benign'] else 'hostile', 0) + 1
+        if c.get('linky'):
+            d['link-fallback archives'] = d.get('link-fallback archives', 0) + 1
         for m in c['members']:
             d['kind:' + m['kind']] = d.get('kind:' + m['kind'], 0) + 1
     return d
